@@ -406,6 +406,79 @@ def segment_rules(chk, repo):
                             'undecided: ring/segment loops not in the expected nested form'), f.loc())
 
 
+def array_holds_aperture(chk, repo, clause):
+    """The array hex_segments allocates is at least as wide as the widest row of segments (flat to flat) and, for one ring
+    or more, as high as the aperture from vertex to vertex, plus the requested padding on both sides - for every
+    ring count, segment radius and non-negative gap.  Centre spacing and hexagon size are those of the grid map (C20-h):
+    neighbours are sqrt(3)*(seg_radius + seg_gap/2) apart, rows 3/2*(seg_radius + seg_gap/2)."""
+    from fractions import Fraction
+    f = repo.func('segmented.hex_segments')
+    _, paths, _ = analyse(repo, f)
+    k, R, g, pad = S('rings'), S('seg_radius'), S('seg_gap'), S('pad')
+    s3 = C(3).pow(Fraction(1, 2))
+    width = (2 * k + 1) * s3 * R + 2 * k * (s3 / 2) * g + 2 * pad
+    height1 = 3 * (k + 1) * (R + g / 2) + 2 * R + 2 * pad        # with rings = k + 1 >= 1
+    sizes = set()
+    for p in returns(paths):
+        for e in p.calls('shape.hexagon'):
+            shp = e.bound.get('shape')
+            for it in (shp.items if isinstance(shp, Tup) else []):
+                v = nf.strip_apps(it, ('m:astype', 'cast', 'copy', 'int'))
+                a = v.single_atom() if isinstance(v, Poly) else None
+                while a is not None and (a[0] == 'idx' or is_app(a, ('m:astype', 'cast', 'broadcast_to', 'asarray'))):
+                    v = Poly.atom(a[1]) if a[0] == 'idx' else a[2][0]
+                    a = v.single_atom() if isinstance(v, Poly) else None
+                if a is not None and is_app(a, 'ceil') and isinstance(a[2][0], Poly):
+                    sizes.add(a[2][0])
+                elif isinstance(v, Poly):
+                    sizes.add(v)
+
+    def nonneg(d):
+        """every coefficient of d (a polynomial in non-negative quantities, sqrt(3) evaluated) is >= 0; else a witness"""
+        approx = Fraction(17320508075688772, 10 ** 16)
+        acc = {}
+        for mono, c in d.terms:
+            c = Fraction(c)
+            rest = []
+            for a_, e_ in mono:
+                if a_[0] == 'num':
+                    # an irrational constant such as 3**(1/2): its numerical value (16 digits)
+                    if Fraction(e_).denominator == 1:
+                        c = c * Fraction(a_[1]) ** int(e_)
+                    elif a_[1] == 3 and Fraction(e_) * 2 == int(Fraction(e_) * 2):
+                        c = c * approx ** int(Fraction(e_) * 2)
+                    else:
+                        c = c * Fraction(repr(float(a_[1]) ** float(e_)))
+                    continue
+                if a_[0] != 'sym':
+                    return None, f'unexpected quantity {nf.fmt_atom(a_)[:40]}'
+                rest.append((a_, e_))
+            key = tuple(sorted(rest, key=repr))
+            acc[key] = acc.get(key, Fraction(0)) + c
+        bad = {m_: c_ for m_, c_ in acc.items() if c_ < -Fraction(1, 10 ** 9)}
+        if not bad:
+            return True, ''
+        m_, c_ = sorted(bad.items(), key=repr)[0]
+        names = {a_[1] for a_, _ in m_}
+        # witness: the quantities of that monomial at 1, everything else at 0
+        val = sum(c2 for m2, c2 in acc.items() if {a_[1] for a_, _ in m2} <= names)
+        if val < 0:
+            return False, 'e.g. ' + ', '.join(f'{n} = 1' for n in sorted(names)) + ' and the other quantities 0: short by ' + f'{float(-val):.3f}'
+        return None, f'coefficient {float(c_):.3f} on {sorted(names)}'
+    if len(sizes) != 1:
+        chk.undecided(clause, 'N-bounds', f.key, 'the array holds the whole aperture plus the padding',
+                      f'{len(sizes)} different array sizes handed to hexagon()', f.loc())
+        return
+    P_ = next(iter(sizes))
+    v1, d1 = nonneg(P_ - width)
+    chk.ob(clause, 'N-bounds', f.key, 'array width >= widest row of segments (flat to flat) + 2*pad', v1,
+           f'size = ceil({fmt(P_)[:120]}); needed {fmt(width)[:120]}' + (f'; {d1}' if d1 else ''), f.loc())
+    P1 = nf.subst_value(P_, {('sym', 'rings'): k + 1})
+    v2, d2 = nonneg(P1 - height1)
+    chk.ob(clause, 'N-bounds', f.key, 'array height >= aperture from vertex to vertex + 2*pad (one ring or more)', v2,
+           f'needed {fmt(height1)[:120]} at rings = k + 1' + (f'; {d2}' if d2 else ''), f.loc())
+
+
 def non_overlap_rule(chk, repo, clause):
     """Non-antialiased hexagons are closed on all six sides and neighbours are pitched so that, with no gap, they share
     an edge - which runs through the origin row (or column, when rotated) of samples.  The segments can only be disjoint
@@ -487,6 +560,8 @@ def run(chk, repo, tier):
     chk.clause('C20-h', 'hexagonal grid: axial -> cartesian map, (row, col) = (-y, x), pitch seg_radius + seg_gap/2', 4)
     chk.clause('C20-j', 'hexagonal segments are mutually non-overlapping, also with no gap between them', 1)
     non_overlap_rule(chk, repo, 'C20-j')
+    chk.clause('C20-k', 'the segments are clear of the array border: the array is as large as the aperture plus padding', 2)
+    array_holds_aperture(chk, repo, 'C20-k')
     chk.clause('C20-s', 'no helper mixes two different axes of one array (package-wide shape inference over util/helper/shape/segmented)', 1)
     fw = repo.func('util.window')
     _, wpaths, _ = analyse(repo, fw, config={'slice': NONE, 'shape': S('shape')})
@@ -523,6 +598,58 @@ def run(chk, repo, tier):
                         oks, dets = False, f'{nf.fmt_atom(a)[:100]} rounds the shift'
         chk.ob('C20-i', 'D-flow', key, 'the shift is used as given: never rounded or cast to an integer', oks and ns > 0,
                dets or f'{ns} path(s)', sf.loc())
+    # ... and component by component: the coordinate mesh of every shape is shifted by (shift[0] + a, shift[1] + b) with
+    # a, b independent of the shift - rows move with shift[0], columns with shift[1] (exact translation under integer shifts)
+    for key in ('shape.circle', 'shape.hexagon', 'shape.rectangle', 'shape.spider'):
+        sf, sp, _ = analyse(repo, key, config={'shift': pair('shift')}, inline=['shape.rectangle'] if key != 'shape.rectangle' else [])
+        sh_ = pair('shift')
+        okm, nm, detm = True, 0, ''
+        sh_atoms = [i.single_atom() for i in sh_.items]
+        for p in returns(sp):
+            for e in p.calls('helper.mesh'):
+                ms = e.bound.get('shift')
+                if isinstance(ms, Tup) and len(ms) == 2 and all(isinstance(i, Poly) and i.is_zero() for i in ms.items):
+                    # the mesh is centred and the shift is applied to its components afterwards: grid k minus shift[k]
+                    res = e.data.get('result')
+                    comps = [nf.index(res, C(0)).single_atom(), nf.index(res, C(1)).single_atom()]
+                    for v in [p.ret] + [x for a in nf.value_atoms(p.ret) if a[0] == 'app' for x in a[2] if isinstance(x, Poly)] + \
+                            [a[1] for a in nf.value_atoms(p.ret) if a[0] == 'poly']:
+                        if not isinstance(v, Poly):
+                            continue
+                        tops = set(v.atoms(deep=False))
+                        for mm, cc in v.terms:
+                            here = {a_ for a_, _ in mm}
+                            for k in (0, 1):
+                                for j in (0, 1):
+                                    if comps[k] in here and sh_atoms[j] in here:      # cross term of (grid_k - shift_j)**2
+                                        nm += 1
+                                        if j != k:
+                                            okm = False
+                                            detm = f'grid component {k} is combined with shift[{j}] in {fmt(v)[:100]}'
+                        for k in (0, 1):
+                            for j in (0, 1):
+                                if comps[k] in tops and sh_atoms[j] in tops:
+                                    lin = {mm[0][0]: cc for mm, cc in v.terms if len(mm) == 1 and mm[0][1] == 1}
+                                    if comps[k] in lin and sh_atoms[j] in lin:
+                                        nm += 1
+                                        if j != k or lin[comps[k]] != -lin[sh_atoms[j]]:
+                                            okm = False
+                                            detm = f'grid component {k} is combined with shift[{j}] in {fmt(v)[:100]}'
+                    continue
+                if not (isinstance(ms, Tup) and len(ms) == 2):
+                    okm, detm = None if okm is not False else okm, f'mesh shift {fmt(ms)[:80]} is not a (row, col) pair'
+                    continue
+                nm += 1
+                for k in (0, 1):
+                    rest = ms.items[k] - sh_.items[k] if isinstance(ms.items[k], Poly) else None
+                    if rest is None or any(a in nf.value_atoms(rest) for i in sh_.items for a in nf.value_atoms(i)):
+                        okm = False
+                        detm = f'mesh shift component {k} = {fmt(ms.items[k])[:100]}: not shift[{k}] plus something independent of the shift'
+        if okm and not nm:
+            okm = None
+            detm = detm or 'undecided: neither a shifted mesh nor grid - shift found'
+        chk.ob('C20-i', 'D-flow', key, 'rows move with shift[0], columns with shift[1]', okm,
+               detm or f'{nm} mesh call(s)', sf.loc())
     chk.not_decided += ['translation/half-turn symmetry of drawn shapes, equal areas, non-overlap, border clearance']
     pad_rules(chk, repo)
     helper_rules(chk, repo)
